@@ -59,6 +59,8 @@ class StreamConn(object):
         self.addr = [addr0, addr1]
         self.sent_log = None                    # optional list, set by monitors
         self.capacity = None                    # octets one direction holds in flight (None: unbounded)
+        self.reset = [False, False]             # end i has been reset by its peer (RST): one ECONNRESET, then end of stream
+        self.reset_seen = [False, False]
         self.ends = [StreamSocket(self, 0), StreamSocket(self, 1)]
 
 
@@ -80,7 +82,7 @@ class StreamSocket(object):
         if conn.closed[me]:
             return 0
         cond = 0
-        if conn.buf[me] or conn.closed[peer] or conn.shut_wr[peer]:
+        if conn.buf[me] or conn.closed[peer] or conn.shut_wr[peer] or conn.reset[me]:
             cond |= GLib.IO_IN
         if conn.capacity is None or len(conn.buf[peer]) < conn.capacity or conn.closed[peer]:
             # (a pipe that is full is not writable until the peer has read)
@@ -120,6 +122,13 @@ class StreamSocket(object):
         conn, me, peer = self.conn, self.side, 1 - self.side
         if conn.closed[me]:
             raise OSError(errno.EBADF, 'Bad file descriptor')
+        if conn.reset[me]:
+            # the peer vanished abortively: what was in flight is gone, the first read reports the reset
+            del conn.buf[me][:]
+            if not conn.reset_seen[me]:
+                conn.reset_seen[me] = True
+                raise ConnectionResetError(errno.ECONNRESET, 'Connection reset by peer')
+            return b''
         buf = conn.buf[me]
         if not buf:
             if conn.closed[peer] or conn.shut_wr[peer]:
@@ -147,6 +156,8 @@ class StreamSocket(object):
             raise BrokenPipeError(errno.EPIPE, 'Broken pipe')
         data = bytes(data)
         env = _env
+        if conn.reset[me]:
+            raise ConnectionResetError(errno.ECONNRESET, 'Connection reset by peer')
         if conn.closed[peer]:
             if env.send_closed == 'discard' and not env.used:
                 env.used = True
